@@ -1,9 +1,35 @@
-import Gzx.Util
+import Gzx.Model.Render
 namespace Gzx.Driver.C14
-open Gzx
+open Gzx Gzx.Render
 
-/-- line-protocol handler of suite `c14` (arguments after the suite name) -/
+/-- module grid from a row-major 0/1 string (driver-side decoding only; the model takes the grid as a function) -/
+def bitArray (bits : String) : Array Bool := (bits.toList.map (fun c => c == '1')).toArray
+
+def gridOf (mw : Nat) (arr : Array Bool) (i j : Nat) : Bool := arr.getD (j * mw + i) false
+
+def showOut : Res Image → String
+  | .ok img => showImage img
+  | .error (.panic _) => "PANIC"
+  | .error e => "ERR:" ++ e.tag
+
+/-- line-protocol handler of suite `c14` (arguments after the suite name)
+    * `qr <mw> <mh> <bits> <quiet> <reqW> <reqH>`
+    * `dm <mw> <mh> <bits> <reqW> <reqH>`
+    * `1d <bits> <reqW> <reqH> <margin>`
+    answer: `ok <W>x<H> <rows joined by '/' | h=<hash>>`, `ERR:<kind>` or `PANIC` -/
 def handle : List String → String
+  | ["qr", mw, mh, bits, q, w, h] =>
+    match parseNat? mw, parseNat? mh, parseInt? q, parseInt? w, parseInt? h with
+    | some mw, some mh, some q, some w, some h => let arr := bitArray bits; showOut (renderQR mw mh (gridOf mw arr) q w h)
+    | _, _, _, _, _ => "bad-op"
+  | ["dm", mw, mh, bits, w, h] =>
+    match parseNat? mw, parseNat? mh, parseInt? w, parseInt? h with
+    | some mw, some mh, some w, some h => let arr := bitArray bits; showOut (renderDM mw mh (gridOf mw arr) w h)
+    | _, _, _, _ => "bad-op"
+  | ["1d", bits, w, h, mg] =>
+    match parseInt? w, parseInt? h, parseInt? mg with
+    | some w, some h, some mg => showOut (render1D (parseBits bits) w h mg)
+    | _, _, _ => "bad-op"
   | _ => "bad-op"
 
 end Gzx.Driver.C14
